@@ -10,7 +10,12 @@ Real code, three observation channels (none needs a hook in /repo):
    reopen) on real records of both classes; the directory is copied after every API call *and*
    around the file-system steps inside create/commit (before/after `IH5UserBlock.save`, at
    `hashsum_file`, before/after `IH5Manifest.save` — wrapped from the harness). Every snapshot is
-   opened as "committed files only" and as "all files".
+   opened as "committed files only" and as "all files", each in BOTH forms the constructor takes: the explicit
+   file list, and the RECORD NAME (what a restarted process does; the committed containers are linked into a
+   directory of their own for it) — the state shown is compared with the state recorded at the last commit.
+   Long chains (profile "long": >= 11 committed containers, i.e. patch indices with two digits, tiny payloads,
+   restarts all along the chain, varied record names) are part of every tier; there a sample of the snapshots is
+   analysed, each in one of the two forms.
    Crash + recovery (cases with `v >= 2`): the close/reopen step either closes without commit or
    continues in a *crash image* (copy of the directory taken while the record is open); the record
    is then opened again in EVERY writable mode (`r+`, `a`) and in every form the constructor takes
@@ -26,9 +31,10 @@ Real code, three observation channels (none needs a hook in /repo):
    checked afterwards against the writer's journal.
 
 Oracle (real code only): a committed file changes (sha256); the committed files alone do not open or
-do not show the last committed state; the complete set opens with every container committed but is
-not a state that was written (dump / user block differ from the committed or the about-to-be-committed
-state).
+do not show the last committed state (file list or record name); the complete set opens with every container
+committed but is not a state that was written (dump / user block differ from the committed or the
+about-to-be-committed state), or (by name) shows the committed state with the newest container of the set silently
+left out (neither "interrupted patch recognisable as uncommitted" nor "the fully committed new state").
 Correspondence: ok/err + patch order of both openings of every snapshot vs. the model `openFiles`;
 what every writable open does (re-opens the interrupted newest container / creates a patch / refuses
 because the name of the next patch is taken / fails) vs. the model `Crash.openW`;
@@ -832,18 +838,21 @@ def gen_cases(ctx):
 
 def run(ctx):
     ctx.rule = ("(snap) random patching history on a real record; directory copied after every API call and around the file-system steps "
-                "inside create/commit; every copy opened as 'committed files only' and 'all files'; close/reopen steps close without commit or continue "
+                "inside create/commit; every copy opened as 'committed files only' and 'all files', by file list and by record name (committed "
+                "containers in a directory of their own), state compared with the one recorded at the last commit; long chains (>= 11 committed "
+                "containers, tiny payloads, restarts along the chain) in every tier; close/reopen steps close without commit or continue "
                 "in a crash image, then re-open in every writable mode ('r+', 'a') and constructor form (name, file list, shuffled list), with "
                 "writable opens of a strict prefix of the file list in between (what the open does is compared with the model openW). "
                 "(torn) every save(): all 1025 cuts "
                 "after[:k]+before[k:] classified by the real IH5UserBlock.load and by the model; distinct torn blocks opened inside the file set. "
-                "(kill, thorough) writer subprocess killed with SIGKILL after a random delay. Non-trivial = tagged by API call x view x outcome, "
+                "(kill, thorough) writer subprocess killed with SIGKILL after a random delay (up to ~30 commits), directory opened by list and by name. Non-trivial = tagged by API call x view x outcome, "
                 "torn classification alphabet, kill outcome.")
     ctx.assumptions += [
         "an in-place write that is interrupted leaves a prefix of the new bytes followed by the old bytes (torn k old new = new.take k ++ old.drop k)",
         "a write to one file does not alter another file; open(..., 'x') fails on existing names",
         "what HDF5 leaves in an uncommitted payload when interrupted is arbitrary (the theorems quantify over all payloads)",
         "SHA-256 of the payload is what commit stores (H); no collision assumption is needed for C11",
+        "histories live below /dev/shm (tmpfs) when it is writable, every 16th short history below the default temp dir; SIGKILL runs always below the default temp dir",
     ]
     ctx.exhaustive_spaces.append("every cut k in [0,1024] of every user-block write of every generated history (block level, real parser vs model)")
     # (the corpus first, then the long chains: the most expensive cases, started first so that the workers finish together)
